@@ -90,6 +90,16 @@ FIXED = [
      "[foo, Jump -> bar, bar, Return]: the Jump got the entry (3, 4) = the line `@label_0;`; in larger sets the entry pointed at another op's statement, behind the end of a line or into `default:`; `} elseif ( .. ) {` headers had the column of the brace. The check had exempted both (17.9k of 74k inputs once the exemptions were dropped; a sub-agent pointed at them)"),
     ("C02", "fix: a case whose block ends with a jump to the end of the switch that is still in the graph lost its break",
      "[Switch $V, Case 1 -> C, message_Talk, Jump -> E, C: Call -> message_Talk, Jump -> E, E: Return] decompiled to `case 1: call @label_2; default: @label_2; message_Talk(1); break;` (first set of family R; pointed out by a sub-agent)"),
+    ("C04", "fix: position mark coordinates like 1.05 were accepted and read as 1.5",
+     "`Position<'m', 1.05, 7>` (also 1.005, .05, -3.0500) compiled to the half tile 1.5 in both compilers while 1.25 is rejected (4 of the 25 coordinate spellings; pointed out by three sub-agents)"),
+    ("C02", "fix: flag_CalcValue with the assign operator and BranchValue with == were written in the spelling of flag_Set and Branch",
+     "[flag_CalcValue $V 0 5] decompiled to `$V = 5;` (recompiles to flag_Set), [BranchValue $V 2 5 ..] to `if ( $V == 5 )` (recompiles to Branch): 2 of the 27 operator sweeps of family V"),
+    ("C02", "fix: message switches whose default is not the last case were written with the cases in another order",
+     "[message_SwitchTalk $M, DefaultText d, CaseText 1 t, Return] came back with the default last; with two DefaultText ops the text was rejected (two sets of family R)"),
+    ("C08", "fix: the position of a macro call was lost when the first opcode of the call was removed",
+     "`macro m() { jump @a; @a; foo(); } def 0 { ~m(); end; }`: the only emitted op of the call had `called_in` null, the call position stood under the offset of the removed jump (1196 G-macro cases once macro bodies starting with a redundant jump were generated; pointed out by a sub-agent)"),
+    ("C04", "fix: strings without a line break that can't be single line literals were printed as such when they start with a blank",
+     "the string blank + backslash (also blank + form feed, blank + backslash + n ..) was printed as the single-line literal `' \\'`, a ParseError; it is printed as a one-line literal in triple quotes now, which is read as it stands (the former C04-backslash-and-indent list shrank from 1196 to the values with a line break)"),
     ("C02", "fix: dungeon mode values other than 0..3 were printed as the 'closed' constant",
      "`switch (dungeon_mode(D)) { case DMODE_OPEN: .. }` (or any constant / other number as case value or flag_SetDungeonMode value) decompiled to `case DMODE_CLOSE:` (476 of 55k inputs under seed rotation 2)"),
     ("C09", "fix: inserted break_loop/continue statements overwrote the source map entry of the op before them",
